@@ -262,7 +262,7 @@ pub fn subs() -> Vec<Box<dyn Sub>> {
             rule: "CommandLineTag / BootLoaderNameTag / ModuleTag constructors. Enumerated: every string over {a, e-acute, euro sign, U+10348} up to 5 (thorough 6) characters, with and without one trailing NUL, x 3 kinds; generated: NUL-free strings up to 300 characters, with trailing NUL(s) / interior NUL. Oracle: stored bytes == text (+ NUL unless it already ends in NUL), size == fixed part + stored length, read-back == prefix before the first NUL. Non-trivial = multi-byte character, trailing NUL, or length 7 mod 8; distinct by (kind, text)",
             profiles: Profiles::Both,
             quick: 30000,
-            thorough: 500000,
+            thorough: 3000000,
             strategy: strategy_build,
             enumerate: Some(enumerate_build),
             enum_exhaustive: false,
@@ -273,7 +273,7 @@ pub fn subs() -> Vec<Box<dyn Sub>> {
             rule: "string tags laid out by hand: [fixed part][content][padding 0x5A|0x00][next tag starting 0x00|0x41], declared size = fixed part + cut. Enumerated: every byte string over {a, NUL, C3, A9, E2, FF} up to length 5 (thorough 6) x every cut 0..=len (kinds, padding and next-tag byte rotating); generated: contents up to 300 bytes, random cuts. Oracle: text = bytes before the first NUL inside the declared size if valid UTF-8 (exact offset and length), MissingNul / Utf8 otherwise, never a panic. Non-trivial = terminator only outside the declared size, invalid UTF-8, or interior NUL; distinct by hash(image, kind)",
             profiles: Profiles::Both,
             quick: 40000,
-            thorough: 600000,
+            thorough: 3000000,
             strategy: strategy_parse,
             enumerate: Some(enumerate_parse),
             enum_exhaustive: false,
